@@ -21,7 +21,11 @@ RULE = ('T2/T3: DigestAuthRequestScheme.A1/A2/calculate_request_digest/compose/p
 	'qop in {absent, auth, auth-int} x algorithm in {absent, MD5, MD5-sess}, missing keys, unknown/odd algorithms and qops, cached A1, '
 	'given responses, empty values, delimiters in values, malformed parameter lists. Oracle: an independent hashlib transcription of RFC 2617 3.2.2, '
 	'survival of every parameter through compose -> Headers -> wire -> parse, server-side check() on the parsed field and on every single-field '
-	'perturbation compared with the RFC computation. non-trivial = distinct (kind, input)')
+	'perturbation compared with the RFC computation; wave 5: the same octets in every binary / text type and the parameters in every container type and '
+	'insertion order (a refusal of a type is not judged, an answer is), a second element built from the same argument object changed, refused operations '
+	'between valid ones and the fields given in every order, the encoding attribute with non-ASCII user names, both credentials fields in one block, '
+	'digests and hashed-only inputs of rare shapes, every value and every composed hashed string at multiples of 2^9..2^16 and +-1 with one octet '
+	'of the server\'s value flipped. non-trivial = distinct (kind, input)')
 EXHAUSTIVE = {'quick': False, 'thorough': False}
 TRUSTED = ['harness/tables/auth.py (T1: TSPECIALS class, bytes.strip/lower/title tables, scheme registry, algorithm table, D22 variant probe)',
 	'harness/props/C17.py + coq/Corr/C17.v (T2 canonicalisation; T3 recording wrappers around hashlib.md5/sha256 and generate_nonce)',
@@ -539,6 +543,465 @@ def _gen_wave4(rng, tier, hdrs, schemes):
 	return cases
 
 
+# ---------------------------------------------------------------------------------------------------------------------
+# wave-5 strengthening: (10) aliasing of argument objects, (11) argument TYPE variants of the entry points, (12) refused operations,
+# (13) configuration knobs (AuthRequestElement.encoding), (14) order of fields / of dict input, (15) order of API calls, (16) value-dependent
+# rare shapes (digests of rare form, hashed-only inputs with white space / NUL / CR LF / '=' padding), (17) boundary arithmetic (lengths that are
+# exact multiples of 2^k, k = 9..16, and those +-1, in every position and in every COMPOSED hashed string A1, A2, KD data)
+_FAST = bytes(ch for ch in SAFE if ch != 0x3f)  # no '?': such a value cannot contain '=?'
+_FAST_TABLE = bytes(_FAST[i % len(_FAST)] for i in range(256))
+_TOK = b'abcdefghijklmnopqrstuvwxyz0123456789'
+_TOK_TABLE = bytes(_TOK[i % len(_TOK)] for i in range(256))
+POW2 = [1 << k for k in range(9, 17)]
+HASHED_ONLY = ['password', 'method', 'entity_body']  # never transmitted: any octets, any binary type
+LITE_COQ = 1100  # total octets of a tuple up to which the new cases also go through the Coq model
+
+
+def _fastval(rng, n, token=False):
+	return rng.randbytes(n).translate(_TOK_TABLE if token else _FAST_TABLE) if n > 0 else b''
+
+
+def _bound_lengths(full):
+	out = []
+	for p in POW2:
+		out += [p - 1, p, p + 1]
+	for p in POW2:
+		out += [3 * p - 1, 3 * p, 3 * p + 1] if full else [3 * p]
+	out += [2 * POW2[-1] - 1, 2 * POW2[-1], 2 * POW2[-1] + 1] if full else [2 * POW2[-1]]
+	return sorted(set(out))
+
+
+def _flip_positions(n, cap=9):
+	"""positions of ONE octet that differs in a value of the same length: first, last, middle, and both sides of every 2^k boundary counted
+	from the start and from the end"""
+	cand = [0, n - 1, n // 2]
+	for p in reversed(POW2):
+		cand += [p - 1, p, n - p, n - p - 1]
+	out = []
+	for q in cand:
+		if 0 <= q < n and q not in out:
+			out.append(q)
+	return out[:cap]
+
+
+def _flipped(v, q):
+	return v[:q] + bytes([v[q] ^ 1]) + v[q + 1:]
+
+
+def _lite(rng, hdrs, t, why, flip=()):
+	return {'k': 'lite', 'hdr': rng.choice(hdrs), 'd': _hexd(t), 'why': why, 'flip': [[f, _flip_positions(len(t[f]))] for f in flip if t.get(f)]}
+
+
+# (16) pieces of hashed-only contents (password, method, entity body are never transmitted: every octet must reach the hash as it is)
+PIECES = [b'\r\n', b'\n', b'\r', b'\t', b' ', b'\x00', b'\x0b', b'\x0c', b'=', b'==', b'--', b'\r\n\r\n', b'0\r\n\r\n', b'\xff', b'\x7f', b'%', b'&', b'a=b', b'\x85', b'\xa0',
+	b'\xc2\xa0', b'\xe2\x80\xa8', b'\x1a', b'\x1b', b'"', b',', b'\\', b'=?', b'?=', b':', b'::', b'\x00\x00', b' \t ', b'\r\n ', b'--boundary--\r\n', b'%0D%0A', b'&amp;', b'+']
+# a tuple whose response consists of decimal digits only / reads like a float (found by search over the client nonce; the oracle recomputes it)
+RARE_BASE = {'username': b'Mufasa', 'realm': b'testrealm@host.com', 'password': b'Circle Of Life', 'nonce': b'dcd98b7102dd2f0e8b11d0f600bfb0c093', 'nc': b'00000001', 'qop': b'auth',
+	'method': b'GET', 'uri': b'/dir/index.html'}
+RARE_CNONCES = [b'001ed4b8', b'0031da43']  # -> 05559650859951015267786290556687, 4925960431084943736812e797332370
+PREFIXES = [b'0', b'00', b'000', b'0e', b'e', b'1e', b'ff', b'fff', b'a', b'9', b'0a', b'0d', b'20', b'09']
+SUFFIXES = [b'0', b'00', b'000', b'e0', b'ff', b'0a', b'0d', b'20', b'09', b'00']
+
+
+def _search(rng, t, qop, alg, pred, field='nonce', tries=20000):
+	"""vary one value until the RFC response has the wanted shape"""
+	base = t[field]
+	for i in range(tries):
+		t[field] = base + b'%x' % i
+		if pred(rfc2617_response(t, qop, alg)):
+			return t
+	t[field] = base
+	return None
+
+
+def _gen_rare(rng, tier, hdrs):
+	import base64
+	import uuid
+	big = tier == 'thorough'
+	m = 6 if big else 1
+	combos = [(q, a) for q in QOPS for a in ALGS]
+	cases = []
+	# many cheap multi-piece contents in the hashed-only positions
+	for i in range(150 * m):
+		qop, alg = (b'auth-int', ALGS[i % 3]) if i % 2 else combos[i % 9]
+		t = _full_tuple(rng, qop, alg, 'token')
+		for f in HASHED_ONLY:
+			parts = [rng.choice(PIECES) if rng.random() < 0.6 else _val(rng, 'token', 1, 6) for _ in range(rng.randint(1, 5))]
+			if rng.random() < 0.7:
+				parts[rng.choice([0, -1])] = rng.choice(PIECES)
+			t[f] = b''.join(parts)
+		cases.append(_lite(rng, hdrs, t, 'hashed-only inputs made of %s' % ('white space / NUL / CR LF / padding pieces',), ['entity_body'] if qop == b'auth-int' else ['password']))
+	# nonces / client nonces / opaque values as servers make them: base64 with and without padding, URL-safe base64, hex, UUIDs, time:etag:uuid
+	for i in range(60 * m):
+		qop, alg = combos[i % 9]
+		t = _full_tuple(rng, qop, alg, 'token')
+		for f in ('nonce', 'cnonce', 'opaque'):
+			raw = rng.randbytes(rng.choice([1, 2, 3, 4, 5, 7, 8, 10, 16, 20, 32]))
+			t[f] = rng.choice([base64.b64encode(raw), base64.urlsafe_b64encode(raw), base64.b64encode(raw).rstrip(b'='), raw.hex().encode(), base64.b32encode(raw), base64.b16encode(raw),
+				str(uuid.UUID(int=rng.getrandbits(128))).encode(), b'%d:%s:%s' % (rng.randrange(1 << 31), raw.hex().encode()[:8], base64.b64encode(raw))])
+		cases.append(_lite(rng, hdrs, t, 'nonce / cnonce / opaque in base64, hex, UUID form', ['password']))
+	# direct search for responses / body hashes of rare shapes
+	shapes = [(p, True) for p in PREFIXES] + [(s, False) for s in SUFFIXES]
+	for i, (fix, front) in enumerate(shapes):
+		for rep in range(2 * m if big else 1):
+			qop, alg = combos[(i + rep) % 9]
+			t = _full_tuple(rng, qop, alg, 'token')
+			pred = (lambda fix, front: lambda r: r.startswith(fix) if front else r.endswith(fix))(fix, front)
+			if _search(rng, t, qop, alg, pred) is not None:
+				cases.append(_lite(rng, hdrs, t, 'response %s %s' % ('begins with' if front else 'ends in', fix.decode()), ['password']))
+			if i % 3 == 0:  # H(entity-body) / H(A2) of that shape
+				t = _full_tuple(rng, b'auth-int', ALGS[i % 3], 'token')
+				body = t['entity_body']
+				for j in range(20000):
+					t['entity_body'] = body + b'%x' % j
+					if pred(_md5(t['entity_body'])):
+						break
+				cases.append(_lite(rng, hdrs, t, 'H(entity-body) %s %s' % ('begins with' if front else 'ends in', fix.decode()), ['entity_body']))
+	for cn in RARE_CNONCES:
+		for alg in (None, b'MD5'):
+			t = dict(RARE_BASE, cnonce=cn)
+			if alg:
+				t['algorithm'] = alg
+			cases.append(_lite(rng, hdrs, t, 'response of decimal digits only / float-like', ['password']))
+	return cases
+
+
+def _gen_bounds(rng, tier, hdrs):
+	"""(17) every length-carrying position and every composed hashed string at exact multiples of 2^k and +-1"""
+	big = tier == 'thorough'
+	combos = [(q, a) for q in QOPS for a in ALGS]
+	cases = []
+
+	def tup(qop, alg):
+		t = _full_tuple(rng, qop, alg, 'token')
+		t.setdefault('opaque', b'o')
+		return t
+	# the entity body under auth-int: every length; the exact multiples with every algorithm
+	for i, n in enumerate(_bound_lengths(True)):
+		exact = any(n % p == 0 for p in POW2)
+		for alg in (ALGS if exact else [ALGS[i % 3]]):
+			t = tup(b'auth-int', alg)
+			t['entity_body'] = _fastval(rng, n, i % 2 == 0)
+			cases.append(_lite(rng, hdrs, t, 'entity body of %d octets, qop=auth-int' % n, ['entity_body']))
+	for i, n in enumerate(_bound_lengths(True)):
+		qop, alg = combos[i % 9]
+		t = tup(qop, alg)
+		t['password'] = _fastval(rng, n, i % 2 == 1)
+		cases.append(_lite(rng, hdrs, t, 'password of %d octets' % n, ['password']))
+	for j, pos in enumerate(['username', 'realm', 'nonce', 'cnonce', 'nc', 'uri', 'opaque', 'method']):
+		for i, n in enumerate(_bound_lengths(big)):
+			if not big and (i + j) % 2 and n % 512:
+				continue
+			qop, alg = combos[(i + j) % 9]
+			t = tup(qop, alg)
+			t[pos] = _fastval(rng, n, (i + j) % 3 == 0)
+			cases.append(_lite(rng, hdrs, t, '%s of %d octets' % (pos, n), [pos] if pos != 'opaque' else ['password']))
+	# the COMPOSED strings that are hashed: A1 = user:realm:password (also inside MD5-sess), A2 = method:uri[:H(body)], nonce:nc:cnonce:qop:H(A2)
+	targets = ['A1', 'A1sess', 'A2', 'A2int', 'data', 'final']
+	for j, target in enumerate(targets):
+		for i, n in enumerate(_bound_lengths(big)):
+			if not big and n % 512 and (i + j) % 4:
+				continue
+			qop, alg = {'A1sess': (QOPS[i % 3], b'MD5-sess'), 'A2int': (b'auth-int', ALGS[i % 3]), 'A2': (QOPS[i % 2], ALGS[i % 3]),
+				'data': (QOPS[1 + i % 2], ALGS[i % 3]), 'final': (QOPS[1 + i % 2], ALGS[i % 3])}.get(target, (QOPS[i % 3], ALGS[i % 2]))
+			t = tup(qop, alg)
+			if target == 'A1':
+				f, fixed = 'password', len(t['username']) + len(t['realm']) + 2
+			elif target == 'A1sess':  # H(u:r:p) ":" nonce ":" cnonce
+				f, fixed = 'nonce', 32 + 2 + len(t['cnonce'])
+			elif target == 'A2':
+				f, fixed = 'uri', len(t['method']) + 1
+			elif target == 'A2int':
+				f, fixed = 'uri', len(t['method']) + 2 + 32
+			elif target == 'data':  # nonce:nc:cnonce:qop:H(A2)
+				f, fixed = 'cnonce', len(t['nonce']) + len(t['nc']) + len(qop) + 32 + 4
+			else:  # H(A1) ":" data
+				f, fixed = 'cnonce', 33 + len(t['nonce']) + len(t['nc']) + len(qop) + 32 + 4
+			if target == 'A1sess':
+				t['nonce'] = b'n' + _fastval(rng, n - fixed - 1, True)
+			else:
+				t[f] = _fastval(rng, n - fixed, i % 2 == 0)
+			cases.append(_lite(rng, hdrs, t, 'the hashed string %s has %d octets' % (target, n), [f]))
+	return cases
+
+
+TV_BUF = ['bytearray', 'memoryview', 'memoryview_rw', 'memoryview_slice']
+TV_HASHED = TV_BUF + ['str', 'bytes_sub', 'str_sub']
+TV_SENT = ['str', 'bytes_sub', 'str_sub']  # the transmitted parameters as buffers are refused by the unchanged code (formatparam: value.encode): see TV_REFUSABLE
+ONE_SHOT = ['iter', 'gen', 'map', 'chain', 'zip']
+MAPPINGS = ['dict', 'od', 'bud', 'mappingproxy', 'chainmap', 'userdict', 'defaultdict', 'dictsub', 'keysobj']
+CONTAINERS = MAPPINGS + ONE_SHOT + ['list', 'tuple', 'listoflists', 'items']
+RAW_SERVER = ['dict', 'od', 'userdict', 'defaultdict', 'dictsub', 'chainmap', 'mappingproxy']
+ALIAS_HOW = ['item', 'del', 'clear', 'update', 'attr', 'compose', 'all']
+PARSE_IN = ['bytes', 'bytes', 'bytearray', 'memoryview', 'str', 'bytes_sub']
+HSET_IN = ['bytes', 'bytearray', 'memoryview', 'str', 'bytes_sub', 'memoryview_rw']
+
+
+class _BytesSub(bytes):
+	pass
+
+
+class _StrSub(str):
+	pass
+
+
+class _DictSub(dict):
+	pass
+
+
+class _KeysObj(object):
+	"""the minimal mapping protocol dict() accepts: keys() and __getitem__"""
+
+	def __init__(self, pairs):
+		self._d = dict(pairs)
+
+	def keys(self):
+		return list(self._d)
+
+	def __getitem__(self, key):
+		return self._d[key]
+
+
+def _typed(v, ty):
+	if ty == 'bytes':
+		return v
+	if ty == 'bytearray':
+		return bytearray(v)
+	if ty == 'memoryview':
+		return memoryview(v)
+	if ty == 'memoryview_rw':
+		return memoryview(bytearray(v))
+	if ty == 'memoryview_slice':  # a window of a receive buffer
+		return memoryview(b'xx' + v + b'yyy')[2:2 + len(v)]
+	if ty == 'str':
+		return v.decode('utf-8')
+	if ty == 'bytes_sub':
+		return _BytesSub(v)
+	if ty == 'str_sub':
+		return _StrSub(v.decode('utf-8'))
+	raise ValueError(ty)
+
+
+def _container(name, pairs):
+	import collections
+	import itertools
+	import types
+	from httoop.util import ByteUnicodeDict
+	pairs = list(pairs)
+	k = len(pairs) // 2
+	if name == 'dict':
+		return dict(pairs)
+	if name == 'od':
+		return collections.OrderedDict(pairs)
+	if name == 'bud':
+		return ByteUnicodeDict(dict(pairs))
+	if name == 'mappingproxy':
+		return types.MappingProxyType(dict(pairs))
+	if name == 'chainmap':
+		return collections.ChainMap(dict(pairs[:k]), dict(pairs[k:]))
+	if name == 'userdict':
+		return collections.UserDict(dict(pairs))
+	if name == 'defaultdict':
+		return collections.defaultdict(bytes, pairs)
+	if name == 'dictsub':
+		return _DictSub(pairs)
+	if name == 'keysobj':
+		return _KeysObj(pairs)
+	if name == 'list':
+		return pairs
+	if name == 'tuple':
+		return tuple(pairs)
+	if name == 'listoflists':
+		return [list(p) for p in pairs]
+	if name == 'items':
+		return dict(pairs).items()
+	if name == 'iter':
+		return iter(pairs)
+	if name == 'gen':
+		return (p for p in pairs)
+	if name == 'map':
+		return map(tuple, pairs)
+	if name == 'chain':
+		return itertools.chain(pairs[:k], iter(pairs[k:]))
+	if name == 'zip':
+		return zip([p[0] for p in pairs], [p[1] for p in pairs])
+	raise ValueError(name)
+
+
+def _gen_tv(rng, tier, hdrs, schemes):
+	"""(11) the same octets in every binary / text type, the parameters in every container type and insertion order; (10) a second element built
+	from the same argument object is changed: the first one and the argument stay as they were; (14) dict input order"""
+	big = tier == 'thorough'
+	m = 6 if big else 1
+	combos = [(q, a) for q in QOPS for a in ALGS]
+	cases = []
+
+	def one(qop, alg, vt, cont=None, svt=None, kind='token'):
+		t = _full_tuple(rng, qop, alg, kind)
+		if rng.random() < 0.5:
+			t.setdefault('opaque', b'o')
+		order = list(t)
+		r = rng.random()
+		if r < 0.5:
+			rng.shuffle(order)
+		elif r < 0.65:
+			order.sort()
+		elif r < 0.8:
+			order.sort(reverse=True)
+		cont = cont or rng.choice(CONTAINERS)
+		via = rng.choice(['new', 'new', 'create', 'replace'] + (['update'] if cont in MAPPINGS else []))
+		sfields = [f for f in SERVER_FIELDS if f in t]
+		sorder = rng.sample(sfields, len(sfields))
+		svia = rng.choice(['bud', 'bud', 'raw', 'elem'])
+		if svt is None:
+			svt = {f: rng.choice(TV_BUF if svia != 'elem' else TV_HASHED) for f in rng.sample([f for f in sfields if f not in ('qop', 'algorithm')], rng.choice([0, 1, 2, 4]))}
+		elif svia != 'elem':
+			svt = {f: ty for f, ty in svt.items() if ty in TV_BUF or ty == 'bytes_sub'}
+		scont = rng.choice(RAW_SERVER if svia == 'raw' else CONTAINERS)
+		sent = ['username', 'realm', 'nonce', 'uri', 'response', 'algorithm', 'opaque', 'qop', 'cnonce', 'nc']
+		cases.append({'k': 'tv', 'hdr': rng.choice(hdrs), 'scheme': rng.choice(schemes), 'd': _hexd(t), 'vt': vt(t) if callable(vt) else vt, 'cont': cont, 'order': order,
+			'keys': rng.choice(['str', 'str', 'bytes', 'mixed']), 'via': via, 'alias': rng.choice(ALIAS_HOW + [None]), 'pin': rng.choice(PARSE_IN), 'hin': rng.choice(HSET_IN),
+			'srv': {'vt': svt, 'cont': scont, 'via': svia, 'order': sorder}, 'rpt': {f: rng.choice(TV_BUF + ['bytes_sub']) for f in rng.sample(sent, rng.choice([0, 1, 3]))},
+			'wrong': rng.sample(HASHED_ONLY if qop == b'auth-int' else HASHED_ONLY[:2], 2)})
+	# every hashed-only input in every type x every qop x algorithm
+	for f in HASHED_ONLY:
+		for ty in TV_HASHED:
+			for qop, alg in combos:
+				if f == 'entity_body' and qop != b'auth-int' and not big and ty not in ('bytearray', 'memoryview'):
+					continue
+				one(qop, alg, {f: ty}, 'dict' if rng.random() < 0.5 else None, {f: ty})
+	# every transmitted parameter in every type (buffers: see TV_REFUSABLE)
+	for i, f in enumerate(['username', 'realm', 'nonce', 'cnonce', 'nc', 'uri', 'opaque']):
+		for j, ty in enumerate(TV_SENT + TV_BUF):
+			qop, alg = combos[(i + j) % 9]
+			one(qop, alg, (lambda f, ty: lambda t: {f: ty} if f in t else {})(f, ty))
+	# every container
+	for i, cont in enumerate(CONTAINERS):
+		for rep in range(2):
+			qop, alg = combos[(2 * i + rep) % 9]
+			one(qop, alg, {} if rep else {'password': 'bytearray'}, cont, None, 'safe')
+	for i in range(150 * m):
+		qop, alg = combos[i % 9]
+		one(qop, alg, lambda t: dict([(f, rng.choice(TV_HASHED)) for f in rng.sample(HASHED_ONLY, rng.choice([1, 2, 3]))] + [(f, rng.choice(TV_SENT)) for f in
+			rng.sample(['username', 'realm', 'nonce', 'cnonce', 'nc', 'uri'], rng.choice([0, 0, 1, 2]))]), None, None, rng.choice(['token', 'safe']))
+	return cases
+
+
+REF_WAYS = ['item', 'item_b', 'update', 'setdefault', 'text', 'attr']
+REF_MODES = ['bytes', 'compose', 'str', 'hdr', 'scheme', 'calc']
+BAD_OPS = ['del_missing', 'pop_noarg', 'user_nonascii', 'update_nonmap', 'update_pairs', 'bad_alg', 'bad_qop', 'bad_type', 'bad_text', 'missing', 'bad_value', 'none_value',
+	'sanitize_unencodable', 'check_empty', 'parse_bad', 'hdr_bad', 'str_value']
+REQUIRED = ['username', 'realm', 'password', 'method', 'uri']
+
+
+def _gen_ref(rng, tier, hdrs, schemes):
+	"""(12) operations that are refused (they raise) between the valid ones, (15) the fields of the tuple given in every order, through the
+	constructor or afterwards, composing attempted on the way"""
+	big = tier == 'thorough'
+	combos = [(q, a) for q in QOPS for a in ALGS]
+	cases = []
+
+	def one(i, bads=None):
+		qop, alg = combos[i % 9]
+		t = _full_tuple(rng, qop, alg, rng.choice(['token', 'safe']))
+		if rng.random() < 0.5:
+			t.setdefault('opaque', b'o')
+		fields = list(t)
+		rng.shuffle(fields)
+		k = len(fields) if bads else rng.choice([0, 0, 1, 3, 6, len(fields)])
+		steps = []
+		for f in fields[k:]:
+			if rng.random() < 0.35:
+				steps.append(['bad', rng.choice(BAD_OPS), rng.choice(fields)])
+			if rng.random() < 0.3:
+				steps.append(['try', rng.choice(REF_MODES)])
+			steps.append(['set', f, rng.choice(REF_WAYS)])
+		steps.append(['try', REF_MODES[i % len(REF_MODES)]])
+		for b in (bads or [rng.choice(BAD_OPS) for _ in range(rng.randint(1, 4))]):
+			steps.append(['bad', b, rng.choice(REQUIRED + ['nonce', 'nc', 'cnonce']) if b in ('missing', 'bad_type', 'bad_text', 'none_value', 'sanitize_unencodable') and rng.random() < 0.8 else rng.choice(fields)])
+			if rng.random() < 0.5:
+				steps.append(['try', rng.choice(REF_MODES)])
+		steps.append(['try', rng.choice(REF_MODES[:4])])
+		cases.append({'k': 'ref', 'hdr': hdrs[i % len(hdrs)], 'scheme': rng.choice(schemes), 'd': _hexd(t), 'init': fields[:k], 'ctor': rng.choice(['dict', 'bud', 'pairs']), 'steps': steps})
+	n = 0
+	for b in BAD_OPS:
+		for rep in range(3):
+			one(n, [b])
+			n += 1
+	for _ in range(1200 if big else 130):
+		one(n)
+		n += 1
+	return cases
+
+
+ENCODINGS = ['UTF-8', 'ISO8859-1', 'cp1252', 'koi8-r', 'UTF-16', 'utf-16-le', 'utf-16-be', 'utf-32', 'cp437', 'iso8859-15', 'mac-roman', 'shift_jis', 'utf-7', 'ASCII']
+CFG_TEXT = ['J\u00fcrgen', 'Ren\u00e9e', '\u00c5sa', 'na\u00efve caf\u00e9', '\u041c\u0430\u0440\u0438\u044f', '\u00df', '\u00e9', 'x y', '\u20ac100', 'M\u00fcller:pw', 'a\u00ffb', '\u00d8', 'user',
+	'e\u0301', '\u65e5\u672c', 'u\u0308', '\u0416\u0443\u043a', '\u212b', 'A\u030a', 'caf\u00e9 au lait', '\u00bd', 'a\u00adb', 'x@\u00e9.example']
+CFG_HOW = ['subclass', 'assigned', 'instance']
+CFG_ORDER = ['ctor_then_attr', 'attr_first', 'attr_last', 'attr_twice']
+
+
+def _clean_octets(v):
+	return bool(v) and not any(ch in v for ch in b',"\\\r\n') and b'=?' not in v and v[:1] not in EDGE_WS and v[-1:] not in EDGE_WS and v.strip(b' ') == v
+
+
+def _gen_cfg(rng, tier, hdrs):
+	"""(13) the class attribute that selects the charset of the user name (AuthRequestElement.encoding): on a subclass, assigned on a class, on the
+	instance; combined with non-ASCII user names"""
+	big = tier == 'thorough'
+	combos = [(q, a) for q in QOPS for a in ALGS]
+	cases = []
+	n = 0
+	for i, enc in enumerate(ENCODINGS):
+		for j, text in enumerate(CFG_TEXT):
+			try:
+				octets = text.encode(enc)
+			except UnicodeEncodeError:
+				continue
+			if not _clean_octets(octets):
+				continue
+			if not big and (i + j) % 3:
+				continue
+			qop, alg = combos[n % 9]
+			t = _full_tuple(rng, qop, alg, 'token')
+			t['username'] = octets
+			cases.append({'k': 'cfg', 'hdr': hdrs[n % len(hdrs)], 'd': _hexd(t), 'enc': enc, 'text': text, 'how': CFG_HOW[n % 3], 'order': CFG_ORDER[(n // 3) % 4]})
+			n += 1
+	return cases
+
+
+def _gen_multi(rng, tier, hdrs):
+	"""(14) both credentials fields of the registry in one header block, in both orders, other fields between them"""
+	big = tier == 'thorough'
+	combos = [(q, a) for q in QOPS for a in ALGS]
+	others = [b'Host: h', b'X-A: Digest username="x", realm="r", nonce="n", uri="/", response="0"', b'Accept: */*', b'Cookie: nonce=1; response=2', b'X-Nonce: n', b'Authentication-Info: nextnonce="x"',
+		b'WWW-Authenticate: Digest realm="other", nonce="zz"', b'Content-Length: 0', b'X-Authorization: Digest username=y']
+	cases = []
+	for i in range(500 if big else 80):
+		ts = []
+		for hdr in hdrs:
+			qop, alg = rng.choice(combos)
+			t = _full_tuple(rng, qop, alg, rng.choice(['token', 'safe']))
+			ts.append([hdr, _hexd(t)])
+		if i % 4 == 0:  # the same credentials for the proxy and for the origin server but for the request data
+			ts[1][1] = dict(ts[0][1], uri=ts[1][1]['uri'], nc=ts[1][1]['nc'])
+		if i % 2:
+			ts.reverse()
+		cases.append({'k': 'multi', 'ts': ts, 'dir': ['parse', 'compose', 'parse', 'set_el'][i % 4], 'names': [_anycase(rng, hdr) if rng.random() < 0.3 else hdr for hdr, _ in ts],
+			'gaps': [[rng.choice(others).hex() for _ in range(rng.choice([0, 1, 1, 2]))] for _ in range(len(ts) + 1)], 'seed': rng.randrange(1 << 30), 'quote': rng.choice(['all', 'min', 'rfc'])})
+	return cases
+
+
+def _gen_wave5(rng, tier, hdrs, schemes):
+	cases = _gen_rare(rng, tier, hdrs)
+	cases.extend(_gen_bounds(rng, tier, hdrs))
+	cases.extend(_gen_tv(rng, tier, hdrs, schemes))
+	cases.extend(_gen_ref(rng, tier, hdrs, schemes))
+	cases.extend(_gen_cfg(rng, tier, hdrs))
+	cases.extend(_gen_multi(rng, tier, hdrs))
+	return cases
+
+
 def _gen_classes(rng, tier):
 	big = tier == 'thorough'
 	hdrs, names, algs, qops = _registries()
@@ -548,6 +1011,7 @@ def _gen_classes(rng, tier):
 	cases.extend(_gen_seq(rng, hdrs, schemes, 2500 if big else 180))
 	cases.extend(_gen_reenc(rng, hdrs, schemes, 3000 if big else 300))
 	cases.extend(_gen_wave4(rng, tier, hdrs, schemes))
+	cases.extend(_gen_wave5(rng, tier, hdrs, schemes))
 	# (4) every algorithm and qop name of the tables in several letter cases: correspondence only (the property covers MD5, MD5-sess x absent, auth, auth-int)
 	for name in algs:
 		for sp in [name, name.lower(), name.upper(), name.swapcase(), _anycase(rng, name)]:
@@ -1112,6 +1576,496 @@ def _observe_obs(c):
 	return o
 
 
+# ---------------------------------------------------------------- wave 5: observations
+def _total(c):
+	return sum(len(v) for v in c['d'].values() if v) // 2
+
+
+def _observe_lite(c):
+	"""response, composed field, parse, verification with the same data / with the RFC's own field / with ONE octet of ONE hashed value different"""
+	from httoop.authentication.digest import DigestAuthRequestScheme as DS
+	from httoop.util import ByteUnicodeDict
+	cls = header_class(c['hdr'])
+	d = {kk: _h(vv) for kk, vv in c['d'].items() if vv is not None}
+	small = _total(c) <= LITE_COQ
+	o = {}
+	with _Rec() as rec:
+		try:
+			o['calc'] = DS.calculate_request_digest(_bud(c['d'])).hex()
+			field = bytes(cls('Digest', dict(_bud(c['d']))))
+		except Exception as exc:
+			o['err'], o['stage'] = err_of(exc), 'compose'
+			return rec.done(o) if small else o
+		if small:
+			rec.done(o)
+	if len(field) <= 20000:
+		o['field'] = field.hex()
+	else:  # (kept small: the response and every parameter are judged on what the parser gives back)
+		o['field_head'] = field[:200].hex()
+	try:
+		pe = cls.parse(field)
+		o['back'] = elem_obs(pe)
+	except Exception as exc:
+		o['err'], o['stage'] = err_of(exc), 'parse'
+		return o
+	base = {f: d[f] for f in SERVER_FIELDS if f in d}
+	r = {'info': {kk: vv.hex() for kk, vv in base.items()}, 'rpl': o['back'].get('params', [])} if small else {}
+	with _Rec() as rc:
+		r['res'] = _call(lambda: bool(DS.check(ByteUnicodeDict(base), pe.params)))
+		if small:
+			rc.done(r)
+	o['same'] = r
+	want = rfc2617_response(d, d.get('qop'), d.get('algorithm'))
+	try:
+		pe2 = cls.parse(_plain_field('Digest', d, want))
+		o['ref'] = _call(lambda: bool(DS.check(ByteUnicodeDict(base), pe2.params)))
+	except Exception as exc:
+		o['ref'] = {'err': err_of(exc)}
+	runs = []
+	for f, positions in c.get('flip', []):
+		if f not in base:
+			continue
+		for q in positions:
+			info = dict(base)
+			info[f] = _flipped(base[f], q)
+			runs.append([f, q, _call(lambda: bool(DS.check(ByteUnicodeDict(info), pe.params)))])
+	o['runs'] = runs
+	return o
+
+
+def _snap(arg, cont):
+	"""what the caller's argument object holds: [key, type of the value, octets, identity]"""
+	if cont in ONE_SHOT:
+		return None
+	if cont in MAPPINGS:
+		items = [(k, arg[k]) for k in arg.keys()]
+	elif cont == 'items':
+		items = list(arg)
+	else:
+		items = [tuple(p) for p in arg]
+	return [[repr(k), type(v).__name__, (v.encode('utf-8') if isinstance(v, str) else bytes(v)).hex(), id(v)] for k, v in items]
+
+
+def _alias_mutate(other, how):
+	from httoop.util import ByteUnicodeDict
+	ops = {
+		'item': lambda: (other.params.__setitem__('nc', b'ffffffff'), other.params.__setitem__(b'password', b'other'), other.params.__setitem__('qop', b'auth-int'), other.params.__setitem__('entity_body', b'zz')),
+		'del': lambda: (other.params.__delitem__('uri'), other.params.pop('realm', None), other.params.pop(b'method')),
+		'clear': lambda: other.params.clear(),
+		'update': lambda: other.params.update({'username': b'zz', 'qop': b'auth', 'cnonce': b'1', 'nc': b'2', b'method': b'PUT'}),
+		'attr': lambda: (setattr(other, 'username', 'zz'), setattr(other, 'value', 'Basic'), setattr(other, 'params', ByteUnicodeDict())),
+		'compose': lambda: (bytes(other), other.sanitize(), other.compose(), str(other)),
+	}
+	for name in (sorted(ops) if how == 'all' else [how]):
+		try:
+			ops[name]()
+		except Exception:
+			pass
+
+
+def _observe_tv(c):
+	from httoop import Headers
+	from httoop.authentication.digest import DigestAuthRequestScheme as DS
+	from httoop.util import ByteUnicodeDict
+	cls = header_class(c['hdr'])
+	d = {kk: _h(vv) for kk, vv in c['d'].items() if vv is not None}
+	pairs = []
+	for i, f in enumerate(c['order']):
+		key = f if c['keys'] == 'str' or (c['keys'] == 'mixed' and i % 2) else f.encode('ascii')
+		pairs.append((key, _typed(d[f], c['vt'].get(f, 'bytes'))))
+	arg = _container(c['cont'], pairs)
+	o = {'arg_before': _snap(arg, c['cont'])}
+
+	def build(a):
+		via = c['via']
+		if via == 'new':
+			return cls(c['scheme'], a)
+		if via == 'create':
+			return Headers().create_element(c['hdr'], c['scheme'], a)
+		el = cls(c['scheme'])
+		if via == 'replace':
+			el.params = ByteUnicodeDict(a)
+		elif via == 'update':
+			el.params.update(a)
+		else:
+			raise ValueError(via)
+		el.sanitize()
+		return el
+	el = None
+	with _Rec() as rec:
+		try:
+			el = build(arg)
+			o['calc'] = DS.calculate_request_digest(el.params).hex()
+			field = bytes(el)
+			o['field'] = field.hex()
+		except Exception as exc:
+			o['refused'] = [type(exc).__name__] + err_of(exc)
+		rec.done(o)
+	if 'field' in o and c.get('alias'):
+		try:
+			other = build(arg) if c['cont'] not in ONE_SHOT else cls(c['scheme'], el.params)
+			_alias_mutate(other, c['alias'])
+		except Exception as exc:
+			o['alias_raised'] = type(exc).__name__
+		o['calc2'] = _call(lambda: DS.calculate_request_digest(el.params).hex())
+		o['field2'] = _call(lambda: bytes(el).hex())
+	o['arg_after'] = _snap(arg, c['cont'])
+	if 'field' not in o:  # refused: the receiving side is exercised with the field of the plain octets
+		try:
+			field = bytes(cls('Digest', dict(d)))
+		except Exception as exc:
+			o['err'] = err_of(exc)
+			return o
+	# receiving side: the field handed over in another type
+	ascii_only = all(ch < 0x80 for ch in field)
+	pin = c['pin'] if ascii_only or c['pin'] != 'str' else 'bytes'
+	try:
+		pe = cls.parse(field.decode('latin-1') if pin == 'str' else _typed(field, pin))
+	except Exception as exc:
+		o['parse_refused'] = [pin, type(exc).__name__]
+		pe = None
+	try:
+		if pe is None:
+			pe = cls.parse(field)
+		o['back'] = elem_obs(pe)
+	except Exception as exc:
+		o['err'] = err_of(exc)
+		return o
+	hin = c['hin'] if ascii_only or c['hin'] != 'str' else 'bytes'
+	try:
+		h = Headers()
+		h[c['hdr']] = field.decode('latin-1') if hin == 'str' else _typed(field, hin)
+		o['hback'] = elem_obs(h.element(c['hdr']))
+	except Exception as exc:
+		o['hback'] = {'err': [hin] + err_of(exc)}
+	# the server's data in other types / containers
+	s = c['srv']
+
+	def srv_map(over=None):
+		dd = dict(d)
+		dd.update(over or {})
+		a = _container(s['cont'], [(f, _typed(dd[f], s['vt'].get(f, 'bytes'))) for f in s['order']])
+		if s['via'] == 'bud':
+			return ByteUnicodeDict(a)
+		if s['via'] == 'raw':
+			return a
+		return cls('Digest', a).params
+	try:
+		m = srv_map()
+		o['same'] = _call(lambda: bool(DS.check(m, pe.params)))
+		o['same_again'] = _call(lambda: bool(DS.check(m, pe.params)))
+		rp = ByteUnicodeDict(dict((kk, _typed(vv, c['rpt'].get(kk.decode('latin-1'), 'bytes'))) for kk, vv in pe.params.items()))
+		o['same_rp'] = _call(lambda: bool(DS.check(srv_map(), rp)))
+		o['wrong'] = [[f, _call(lambda: bool(DS.check(srv_map({f: d[f] + b'x'}), pe.params)))] for f in c['wrong'] if f in d]
+	except Exception as exc:
+		o['srv_err'] = [type(exc).__name__] + err_of(exc)
+	return o
+
+
+def _ref_compose(cls, hdr, el, mode):
+	from httoop import Headers
+	from httoop.authentication.digest import DigestAuthRequestScheme as DS
+	if mode == 'bytes':
+		return bytes(el)
+	if mode == 'compose':
+		return el.compose()
+	if mode == 'str':
+		return str(el).encode('latin-1')
+	if mode == 'hdr':
+		h = Headers()
+		h[hdr] = el
+		return h.getbytes(hdr)
+	if mode == 'scheme':
+		return b'Digest ' + DS.compose(el.params)
+	raise ValueError(mode)
+
+
+def _ref_bad(cls, hdr, el, name, f):
+	"""an operation that is refused; state that was made invalid for it is put back through the public API"""
+	from httoop import Headers
+	from httoop.authentication.digest import DigestAuthRequestScheme as DS
+	from httoop.util import ByteUnicodeDict
+	missing = object()
+
+	def with_param(key, value, attempt):
+		old = el.params[key] if key in el.params else missing
+		if value is missing:
+			el.params.pop(key, None)
+		else:
+			el.params[key] = value
+		try:
+			return attempt()
+		finally:
+			if old is missing:
+				el.params.pop(key, None)
+			else:
+				el.params[key] = old
+
+	def compose():
+		return bytes(el)
+	if name == 'del_missing':
+		del el.params['nope']
+	elif name == 'pop_noarg':
+		el.params.pop()
+	elif name == 'user_nonascii':
+		el.username = 'J\u00fcrgen \u2126'
+	elif name == 'update_nonmap':
+		el.params.update(5)
+	elif name == 'update_pairs':
+		el.params.update([('nc', b'9'), ('password', b'other')])
+	elif name == 'bad_alg':
+		with_param('algorithm', b'SHA-1', compose)
+	elif name == 'bad_qop':
+		with_param('qop', b'auth-conf', compose)
+	elif name == 'bad_type':
+		with_param(f, 7, compose)
+	elif name == 'bad_text':
+		with_param(f, 'r\u00e9sum\u00e9 \u2126', compose)
+	elif name == 'str_value':
+		with_param(f, 'text', lambda: DS.calculate_request_digest(el.params))
+	elif name == 'missing':
+		with_param(f, missing, compose)
+	elif name == 'none_value':
+		with_param(f, None, compose)
+	elif name == 'sanitize_unencodable':
+		with_param(f, '\udc80x', el.sanitize)
+	elif name == 'bad_value':
+		old = el.value
+		el.value = 'Bogus'
+		try:
+			compose()
+		finally:
+			el.value = old
+	elif name == 'hdr_bad':
+		old = el.value
+		el.value = 'Bogus'
+		try:
+			h = Headers()
+			h[hdr] = el
+		finally:
+			el.value = old
+	elif name == 'check_empty':
+		DS.check(el.params, ByteUnicodeDict())
+	elif name == 'parse_bad':
+		try:
+			cls.parse(b'Digest username="x"')
+		except Exception:
+			pass
+		cls.parse(b'Bogus x')
+	else:
+		raise ValueError(name)
+
+
+def _ref_sim(c):
+	"""independent bookkeeping: the data the caller gave to the element after every step"""
+	d = {kk: _h(vv) for kk, vv in c['d'].items() if vv is not None}
+	cur = {f: d[f] for f in c['init']}
+	out = []
+	for s in c['steps']:
+		if s[0] == 'set':
+			cur[s[1]] = d[s[1]]
+		out.append(dict(cur))
+	return out
+
+
+def _observe_ref(c):
+	from httoop.authentication.digest import DigestAuthRequestScheme as DS
+	from httoop.util import ByteUnicodeDict
+	hdr = c['hdr']
+	cls = header_class(hdr)
+	d = {kk: _h(vv) for kk, vv in c['d'].items() if vv is not None}
+	init = {f: d[f] for f in c['init']}
+	o = {'steps': []}
+	try:
+		if not init and c['ctor'] == 'dict':
+			el = cls(c['scheme'])
+		else:
+			el = cls(c['scheme'], {'dict': dict, 'bud': ByteUnicodeDict, 'pairs': lambda x: list(x.items())}[c['ctor']](init))
+	except Exception as exc:
+		o['err'], o['stage'] = err_of(exc), 'new'
+		return o
+	last = None
+	for s in c['steps']:
+		so = {}
+		o['steps'].append(so)
+		if s[0] == 'set':
+			f, way = s[1], s[2]
+			v = d[f]
+			try:
+				if way == 'attr' and f == 'username' and all(ch < 0x80 for ch in v):
+					el.username = v.decode('ascii')
+				elif way == 'text' and all(ch < 0x80 for ch in v):
+					el.params[f] = v.decode('ascii')
+					el.sanitize()
+				elif way == 'item_b':
+					el.params[f.encode('ascii')] = v
+				elif way == 'update':
+					el.params.update({f: v})
+				elif way == 'setdefault':
+					el.params.setdefault(f, v)
+				else:
+					el.params[f] = v
+			except Exception as exc:
+				so['err'] = err_of(exc)
+		elif s[0] == 'bad':
+			try:
+				_ref_bad(cls, hdr, el, s[1], s[2])
+				so['raised'] = None
+			except Exception as exc:
+				so['raised'] = type(exc).__name__
+		else:
+			mode = s[1]
+			with _Rec() as rec:
+				try:
+					if mode == 'calc':
+						so['calc'] = DS.calculate_request_digest(el.params).hex()
+					else:
+						field = _ref_compose(cls, hdr, el, mode)
+						so['field'] = field.hex()
+				except Exception as exc:
+					so['err'] = err_of(exc)
+				rec.done(so)
+			if 'field' in so:
+				try:
+					last = cls.parse(field)
+					so['back'] = elem_obs(last)
+				except Exception as exc:
+					so['perr'] = err_of(exc)
+	o['params_after'] = elem_obs(el)
+	# the server side: refused verifications on ONE mapping, then the valid one
+	if last is not None:
+		try:
+			srv = ByteUnicodeDict({f: d[f] for f in SERVER_FIELDS if f in d})
+			v = []
+			pw = srv.pop('password')
+			v.append(_call(lambda: bool(DS.check(srv, last.params))))
+			srv['password'] = pw
+			v.append(_call(lambda: bool(DS.check(srv, last.params))))
+			rp = ByteUnicodeDict(last.params)
+			resp = rp.pop('response')
+			v.append(_call(lambda: bool(DS.check(srv, rp))))
+			rp['response'] = resp
+			v.append(_call(lambda: bool(DS.check(srv, rp))))
+			old = srv.get('algorithm')
+			srv['algorithm'] = b'SHA-1'
+			v.append(_call(lambda: bool(DS.check(srv, rp))))
+			if old is None:
+				del srv['algorithm']
+			else:
+				srv['algorithm'] = old
+			v.append(_call(lambda: bool(DS.check(srv, rp))))
+			srv['password'] = pw + b'x'
+			v.append(_call(lambda: bool(DS.check(srv, rp))))
+			o['verify'] = v
+		except Exception as exc:
+			o['verify_err'] = err_of(exc)
+	return o
+
+
+def _observe_cfg(c):
+	from httoop.authentication.digest import DigestAuthRequestScheme as DS
+	from httoop.util import ByteUnicodeDict
+	Base = header_class(c['hdr'])
+	d = {kk: _h(vv) for kk, vv in c['d'].items() if vv is not None}
+	enc, text, how = c['enc'], c['text'], c['how']
+	if how == 'subclass':
+		Sub = type(Base)('Sub', (Base,), {'encoding': enc})
+	elif how == 'assigned':
+		Sub = type(Base)('Sub', (Base,), {})
+		Sub.encoding = enc
+	else:
+		Sub = Base
+	rest = {f: v for f, v in d.items() if f != 'username'}
+	o = {}
+	with _Rec() as rec:
+		try:
+			order = c['order']
+			if order == 'ctor_then_attr':
+				el = Sub('Digest', dict(rest, username=b'placeholder'))
+			elif order == 'attr_last':
+				el = Sub('Digest', dict(rest))
+			else:
+				el = Sub('Digest')
+			if how == 'instance':
+				el.encoding = enc
+			if order == 'attr_twice':
+				el.username = 'someone else'
+			el.username = text
+			if order in ('attr_first', 'attr_twice'):
+				el.params.update(rest)
+			o['got_user'] = el.username
+			o['octets'] = el.params['username'].hex()
+			o['calc'] = DS.calculate_request_digest(el.params).hex()
+			field = bytes(el)
+			o['field'] = field.hex()
+		except Exception as exc:
+			o['err'], o['stage'] = [type(exc).__name__] + err_of(exc), 'compose'
+			return rec.done(o)
+		rec.done(o)
+	try:
+		pe = Sub.parse(field)
+		if how == 'instance':
+			pe.encoding = enc
+		o['back'] = elem_obs(pe)
+		o['back_user'] = pe.username
+		base = {f: d[f] for f in SERVER_FIELDS if f in d}
+		o['same'] = _call(lambda: bool(DS.check(ByteUnicodeDict(base), pe.params)))
+		o['wrong'] = _call(lambda: bool(DS.check(ByteUnicodeDict(dict(base, username=text.encode('utf-8') + b'x')), pe.params)))
+		o['cls_encoding'] = Base.encoding
+	except Exception as exc:
+		o['err'], o['stage'] = [type(exc).__name__] + err_of(exc), 'parse'
+	return o
+
+
+def _multi_wire(c):
+	import random
+	rng = random.Random(c['seed'])
+	lines = [_h(x) for x in c['gaps'][0]]
+	for i, ((hdr, dh), name) in enumerate(zip(c['ts'], c['names'])):
+		d = {kk: _h(vv) for kk, vv in dh.items() if vv is not None}
+		want = rfc2617_response(d, d.get('qop'), d.get('algorithm'))
+		cc = {'d': dh, 'seed': rng.randrange(1 << 30), 'order': rng.random(), 'quote': c['quote'], 'bws': False, 'wscheme': 'Digest', 'sp': b' '.hex(), 'sep': b', '.hex(), 'ows1': b' '.hex(),
+			'ows2': b''.hex(), 'name': name, 'before': [], 'after': []}
+		lines.append(_reenc_wire(cc, want))
+		lines.extend(_h(x) for x in c['gaps'][i + 1])
+	return b'\r\n'.join(lines)
+
+
+def _observe_multi(c):
+	from httoop import Headers
+	from httoop.authentication.digest import DigestAuthRequestScheme as DS
+	from httoop.util import ByteUnicodeDict
+	tuples = [(hdr, {kk: _h(vv) for kk, vv in dh.items() if vv is not None}) for hdr, dh in c['ts']]
+	o = {}
+	try:
+		if c['dir'] == 'parse':
+			wire = _multi_wire(c)
+		else:
+			hs = Headers()
+			for i, (hdr, d) in enumerate(tuples):
+				for x in c['gaps'][i]:
+					n, _, v = _h(x).partition(b': ')
+					hs[n.decode('ascii')] = v
+				el = header_class(hdr)('Digest', dict(d))
+				hs[c['names'][i]] = el if c['dir'] == 'set_el' else bytes(el)
+			wire = bytes(hs)
+			wire = wire[:-4] if wire.endswith(b'\r\n\r\n') else wire
+		o['wire'] = wire.hex()
+		h = Headers()
+		h.parse(wire)
+		o['els'] = []
+		for hdr, d in tuples:
+			e = h.element(hdr)
+			r = {'stored': h.getbytes(hdr).hex(), 'back': elem_obs(e), 'checks': []}
+			for hdr2, d2 in tuples:
+				info = {f: d2[f] for f in SERVER_FIELDS if f in d2}
+				r['checks'].append(_call(lambda: bool(DS.check(ByteUnicodeDict(info), e.params))))
+			o['els'].append(r)
+	except Exception as exc:
+		o['err'] = [type(exc).__name__] + err_of(exc)
+	return o
+
+
 def _bud(d, ap=None):
 	from httoop.util import ByteUnicodeDict
 	p = {k: _h(v) for k, v in d.items() if v is not None}
@@ -1240,6 +2194,8 @@ def observe(c):
 		return _observe_vfy(c)
 	if k == 'obs':
 		return _observe_obs(c)
+	if k in W5_OBSERVE:
+		return W5_OBSERVE[k](c)
 	raise ValueError(k)
 
 
@@ -1338,6 +2294,39 @@ def coq_case(c, o):
 			r = o['check']
 			out.append('CCheck %s %s %s %s' % (coq_authinfo(r['info']), alist(r['rpl']), coq_tbl(r), coq_res(r['res'], B)))
 		return out or None
+	if k == 'lite':
+		if _total(c) > LITE_COQ or 'tbl' not in o:
+			return None  # the long values are oracle-only (see 'e2e')
+		if 'field' not in o:
+			return 'CCompose %s %s %s %s (Err %s)' % (X(b'Digest'), coq_authinfo(c['d']), coq_tbl(o), _fresh(o), coq_err(o['err']))
+		out = ['CCalc %s %s (Ok %s)' % (coq_authinfo(c['d']), coq_tbl(o), hx(o['calc'])), 'CCompose %s %s %s %s (Ok %s)' % (X(b'Digest'), coq_authinfo(c['d']), coq_tbl(o), _fresh(o), hx(o['field']))]
+		r = o.get('same')
+		if r and 'tbl' in r:
+			out.append('CCheck %s %s %s %s' % (coq_authinfo(r['info']), alist(r['rpl']), coq_tbl(r), coq_res(r['res'], B)))
+		return out
+	if k == 'tv':
+		if 'field' not in o:
+			return None  # a refused argument type is outside the model (values are octet strings there)
+		return 'CCompose %s %s %s %s (Ok %s)' % (X(c['scheme'].encode('ascii')), coq_authinfo(c['d']), coq_tbl(o), _fresh(o), hx(o['field']))
+	if k == 'ref':
+		out = []
+		for s, cur, so in zip(c['steps'], _ref_sim(c), o.get('steps', [])):
+			if s[0] != 'try' or 'tbl' not in so or is_escape(so.get('err')):
+				continue
+			given = coq_authinfo(_hexd(cur))
+			if s[1] == 'calc':
+				out.append('CCalc %s %s %s' % (given, coq_tbl(so), coq_res({'ok': so['calc']} if 'calc' in so else so, hx)))
+			elif s[1] == 'scheme':
+				out.append('CSchemeCompose %s %s %s %s' % (given, coq_tbl(so), _fresh(so), ('(Ok %s)' % X(_h(so['field'])[7:])) if 'field' in so else '(Err %s)' % coq_err(so['err'])))
+			else:
+				out.append('CCompose %s %s %s %s %s' % (X(c['scheme'].encode('ascii')), given, coq_tbl(so), _fresh(so), ('(Ok %s)' % hx(so['field'])) if 'field' in so else '(Err %s)' % coq_err(so['err'])))
+		return out or None
+	if k == 'cfg':
+		if 'field' not in o:
+			return None
+		return 'CCompose %s %s %s %s (Ok %s)' % (X(b'Digest'), coq_authinfo(c['d']), coq_tbl(o), _fresh(o), hx(o['field']))
+	if k == 'multi':
+		return ['CParse %s %s' % (hx(r['stored']), coq_pres(r['back'])) for r in o.get('els', []) if b'=?' not in _h(r['stored'])] or None
 	if k == 'sparse':
 		return 'CSchemeParse %s %s' % (hx(c['info']), coq_res(o, alist))
 	if k == 'parse':
@@ -1381,6 +2370,8 @@ def oracle(c, o):
 		return _oracle_vfy(c, o)
 	if c['k'] == 'obs':
 		return _oracle_obs(c, o)
+	if c['k'] in W5_ORACLE:
+		return W5_ORACLE[c['k']](c, o)
 	if c['k'] != 'e2e':
 		return None
 	d = {kk: _h(vv) for kk, vv in c['d'].items() if vv is not None}
@@ -1593,6 +2584,208 @@ def _oracle_obs(c, o):
 	return None
 
 
+# ---------------------------------------------------------------- wave 5: the property on the new observations
+def _carries(field, want):
+	return b'response=' + want in field or b'response="' + want + b'"' in field
+
+
+def _diff(back, expect):
+	"""(names of the differing parameters, what was expected, what came back) -- long values cut for the message"""
+	diff = sorted(f for f in set(back) | set(expect) if back.get(f) != expect.get(f))
+	cut = lambda v: v if v is None or len(v) <= 80 else v[:60] + b'...(%d octets)' % len(v)
+	return diff, {f: cut(expect.get(f)) for f in diff}, {f: cut(back.get(f)) for f in diff}
+
+
+def _oracle_lite(c, o):
+	d = {kk: _h(vv) for kk, vv in c['d'].items() if vv is not None}
+	qop, alg = d.get('qop'), d.get('algorithm')
+	why = '%s (qop=%s algorithm=%s; lengths %s)' % (c.get('why'), _txt(c['d'].get('qop')), _txt(c['d'].get('algorithm')), {f: len(v) for f, v in sorted(d.items()) if len(v) > 40})
+	want = rfc2617_response(d, qop, alg)
+	if 'calc' in o and _h(o['calc']) != want:
+		return 'response: %s: calculate_request_digest gives %s, the RFC 2617 response is %s' % (why, _h(o['calc']).decode('latin1'), want.decode())
+	if 'field' not in o and 'field_head' not in o:
+		return 'response: %s: composing raised %s' % (why, o['err'])
+	field = _h(o.get('field') or o['field_head'])
+	if 'field' in o and not _carries(field, want):
+		return 'response: %s: the composed field does not carry the RFC 2617 response %s: %r' % (why, want.decode(), field[:120])
+	if 'err' in o or 'err' in o['back']:
+		return 'survive: %s: parsing the composed field raised %s' % (why, o.get('err') or o['back']['err'])
+	back, expect = _params_of(o['back']), _expect_params(d, want)
+	if back != expect:
+		return 'survive: %s: parameter(s) %s changed by compose/parse: sent %r, parsed %r' % ((why,) + _diff(back, expect))
+	if o['same']['res'] != {'ok': True}:
+		return 'verify: %s: check() with the same password and request data returned %s' % (why, o['same']['res'])
+	if o['ref'] != {'ok': True}:
+		return 'verify: %s: a field written as RFC 2617 3.2.2 shows it, carrying the RFC response, is answered %s by check() with the same password and request data' % (why, o['ref'])
+	base = {f: c['d'][f] for f in SERVER_FIELDS if c['d'].get(f) is not None}
+	rp0 = {kk: vv.hex() for kk, vv in back.items()}
+	for f, q, res in o['runs']:
+		info = dict(base)
+		info[f] = _flipped(d[f], q).hex()
+		fail = _judge('%s; the server holds a %s of the same length that differs in octet %d' % (why, f, q), res, info, rp0)
+		if fail:
+			return fail
+	return None
+
+
+TV_REFUSABLE = ('bytearray', 'memoryview', 'memoryview_rw', 'memoryview_slice')
+# The unchanged code refuses (AttributeError / TypeError) a TRANSMITTED parameter handed over as bytearray or memoryview (HeaderElement.formatparam
+# calls value.encode on everything that is not bytes); password, method and entity body - hashed only - are accepted in every buffer type.  A refusal
+# of the former is not judged; an answer is: it must be the RFC's.  cls.parse() refuses memoryview and str input, Headers[...] = takes all four.
+
+
+def _oracle_tv(c, o):
+	d = {kk: _h(vv) for kk, vv in c['d'].items() if vv is not None}
+	qop, alg = d.get('qop'), d.get('algorithm')
+	want = rfc2617_response(d, qop, alg)
+	expect = _expect_params(d, want)
+	s = c['srv']
+	what = 'type variant: %s; parameters as %s (%s keys, insertion order %s) through %s' % (', '.join('%s=%r as %s' % (f, d[f][:40], ty) for f, ty in sorted(c['vt'].items())) or 'all values bytes',
+		c['cont'], c['keys'], c['order'], c['via'])
+	if 'harness' in o:
+		return o['harness']
+	if 'refused' in o:
+		if not any(ty in TV_REFUSABLE for f, ty in c['vt'].items() if f not in HASHED_ONLY):
+			return '%s: raised %s (qop=%r algorithm=%r); the same octets as bytes give response %s' % (what, o['refused'], qop, alg, want.decode())
+	if 'calc' in o and _h(o['calc']) != want:
+		return '%s: calculate_request_digest gives %s, the RFC 2617 response of these octets is %s (qop=%r algorithm=%r)' % (what, _h(o['calc']).decode('latin1'), want.decode(), qop, alg)
+	if 'field' in o:
+		field = _h(o['field'])
+		if not _carries(field, want):
+			return '%s: the composed field does not carry the RFC 2617 response %s (qop=%r algorithm=%r): %r' % (what, want.decode(), qop, alg, field[:200])
+		if c.get('alias'):
+			if o['calc2'] != {'ok': want.hex()} or o['field2'] != {'ok': o['field']}:
+				return ('aliasing: %s: after a second element built from the same argument object was changed (%s), the first one gives response %s / field %r instead of %s' % (
+					what, c['alias'], _h(o['calc2']['ok']).decode('latin1') if 'ok' in o['calc2'] else o['calc2'], _h(o['field2']['ok'])[:120] if 'ok' in o['field2'] else o['field2'], want.decode()))
+	if o['arg_before'] != o['arg_after']:
+		return 'aliasing: %s: the argument object handed to the constructor was changed: %r -> %r' % (what, o['arg_before'], o['arg_after'])
+	if 'err' in o:
+		return '%s: the field of the plain octets: raised %s' % (what, o['err'])
+	if 'parse_refused' in o and o['parse_refused'][0] not in ('memoryview', 'memoryview_rw', 'memoryview_slice', 'str'):
+		return 'type variant: parse() of the field as %s raised %s' % tuple(o['parse_refused'])
+	for via, how in (('back', 'parse(%s)' % c['pin']), ('hback', 'Headers[...] = %s' % c['hin'])):
+		if 'err' in o[via]:
+			return 'type variant: the field handed over through %s: raised %s' % (how, o[via]['err'])
+		back = _params_of(o[via])
+		if back != expect:
+			return 'type variant: the field handed over through %s: parameter(s) %s: expected %r, got %r (%s)' % ((how,) + _diff(back, expect) + (what,))
+	srv = 'the server holds %s in %s (%s)' % (', '.join('%s as %s' % x for x in sorted(s['vt'].items())) or 'bytes', s['cont'], s['via'])
+	if 'srv_err' in o:
+		return 'verify: type variant: %s: raised %s' % (srv, o['srv_err'])
+	for key, txt in (('same', ''), ('same_again', ' (second use of the mapping)'), ('same_rp', ' (received parameters as %s)' % (c['rpt'],))):
+		if o[key] != {'ok': True}:
+			return 'verify: type variant: %s%s: check() with the same password and request data returned %s; client: %s' % (srv, txt, o[key], what)
+	base = {f: c['d'][f] for f in SERVER_FIELDS if c['d'].get(f) is not None}
+	rp0 = {kk: vv.hex() for kk, vv in expect.items()}
+	for f, res in o['wrong']:
+		fail = _judge('type variant: %s, its %s has one octet more' % (srv, f), res, dict(base, **{f: (d[f] + b'x').hex()}), rp0)
+		if fail:
+			return fail
+	return None
+
+
+def _oracle_ref(c, o):
+	d = {kk: _h(vv) for kk, vv in c['d'].items() if vv is not None}
+	if 'err' in o:
+		return 'order of calls: the constructor raised %s for %r' % (o['err'], sorted(c['init']))
+	done = []
+	sims = _ref_sim(c)
+	if len(o['steps']) != len(c['steps']):
+		return 'order of calls: the sequence stopped after step %d' % (len(o['steps']) - 1,)
+	for i, (s, cur, so) in enumerate(zip(c['steps'], sims, o['steps'])):
+		done.append('%s(%s)' % (s[0], ','.join(s[1:])))
+		if s[0] == 'set' and 'err' in so:
+			return 'order of calls: %s raised %s' % (' '.join(done[-6:]), so['err'])
+		if s[0] != 'try':
+			continue
+		want = _try_rfc(cur) if 'nonce' in cur else None
+		if want is None:
+			continue  # the tuple is incomplete: a refusal (or a field with a fresh nonce) - not judged, but the element is used further
+		what = 'refused operations / order of calls: constructor(%s), then %s' % (','.join(c['init']), ' '.join(done[-8:]))
+		if 'err' in so:
+			return '%s: raised %s; the data given so far are complete: a fresh element gives response %s' % (what, so['err'], want.decode())
+		if s[1] == 'calc':
+			if _h(so['calc']) != want:
+				return '%s: calculate_request_digest gives %s, a fresh element with the same data %s' % (what, _h(so['calc']).decode('latin1'), want.decode())
+			continue
+		if 'perr' in so or 'err' in so['back']:
+			return '%s: parsing %r raised %s' % (what, _h(so['field'])[:200], so.get('perr') or so['back']['err'])
+		back, expect = _params_of(so['back']), _expect_params(cur, want)
+		if back != expect:
+			return '%s: a fresh element with the same data gives %r, this one gave %r: %r' % ((what,) + _diff(back, expect)[1:] + (_h(so['field'])[:200],))
+	if 'err' in o['params_after']:
+		return 'refused operations: the element holds a value that is no octet string afterwards: %s' % (o['params_after']['err'],)
+	after = _params_of(o['params_after'])
+	if after != sims[-1]:
+		return 'refused operations: after %s the element holds %r where the caller stored %r' % ((' '.join(done[-8:]),) + _diff(after, sims[-1])[:0:-1])
+	if 'verify_err' in o:
+		return 'verify: refused verifications: raised %s' % (o['verify_err'],)
+	if 'verify' in o:
+		v = o['verify']
+		names = ['without the password', 'with the password again', 'received parameters without response', 'with the response again', 'algorithm SHA-1', 'algorithm as before', 'another password']
+		for i in (1, 3, 5):
+			if v[i] != {'ok': True}:
+				return 'verify: after a refused check() (%s) the same server mapping answers %s to %s' % (names[i - 1], v[i], names[i])
+		for i in (0, 2, 4, 6):
+			if v[i] == {'ok': True}:
+				return 'verify: check() %s accepted' % (names[i],)
+	return None
+
+
+def _oracle_cfg(c, o):
+	d = {kk: _h(vv) for kk, vv in c['d'].items() if vv is not None}
+	qop, alg = d.get('qop'), d.get('algorithm')
+	octets = c['text'].encode(c['enc'])
+	what = 'configuration: %s.encoding = %r (%s), user name %r set through the attribute (%s)' % (c['hdr'], c['enc'], c['how'], c['text'], c['order'])
+	if octets != d['username']:
+		return 'harness: text and octets of the case differ'
+	want = rfc2617_response(d, qop, alg)
+	if 'field' not in o:
+		return '%s: raised %s' % (what, o['err'])
+	if _h(o['octets']) != octets:
+		return '%s: the element holds the user name %r, %r.encode(%r) is %r' % (what, _h(o['octets']), c['text'], c['enc'], octets)
+	if o['got_user'] != c['text']:
+		return '%s: reading the attribute gives %r' % (what, o['got_user'])
+	if _h(o['calc']) != want or not _carries(_h(o['field']), want):
+		return '%s: response %s / field %r, the RFC 2617 response for the user name %r is %s' % (what, _h(o['calc']).decode('latin1'), _h(o['field'])[:120], octets, want.decode())
+	if 'err' in o or 'err' in o['back']:
+		return '%s: parsing the composed field raised %s' % (what, o.get('err') or o['back']['err'])
+	back, expect = _params_of(o['back']), _expect_params(d, want)
+	if back != expect:
+		return '%s: survive: parameter(s) %s changed by compose/parse: sent %r, parsed %r' % ((what,) + _diff(back, expect))
+	if o['back_user'] != c['text']:
+		return '%s: survive: the parsed element gives the user name %r' % (what, o['back_user'])
+	if o['same'] != {'ok': True} or o['wrong'] == {'ok': True}:
+		return '%s: verify: check() with the same data returned %s, with another user name %s' % (what, o['same'], o['wrong'])
+	if o['cls_encoding'] != 'ASCII':
+		return '%s: the class attribute of %s itself is %r afterwards' % (what, c['hdr'], o['cls_encoding'])
+	return None
+
+
+def _oracle_multi(c, o):
+	what = 'order of fields: %s (%s) in one header block' % (' before '.join(hdr for hdr, _ in c['ts']), c['dir'])
+	if 'err' in o:
+		return '%s: raised %s: %r' % (what, o['err'], _h(o.get('wire', ''))[:300])
+	tuples = [(hdr, {kk: _h(vv) for kk, vv in dh.items() if vv is not None}) for hdr, dh in c['ts']]
+	for (hdr, d), r in zip(tuples, o['els']):
+		want = rfc2617_response(d, d.get('qop'), d.get('algorithm'))
+		if 'err' in r['back']:
+			return '%s: %s: raised %s' % (what, hdr, r['back']['err'])
+		back, expect = _params_of(r['back']), _expect_params(d, want)
+		if back != expect:
+			return '%s: %s comes back with parameter(s) %s: expected %r, got %r: %r' % ((what, hdr) + _diff(back, expect) + (_h(o['wire'])[:300],))
+		rp = {kk: vv.hex() for kk, vv in expect.items()}
+		for (hdr2, dh2), res in zip(c['ts'], r['checks']):
+			fail = _judge('%s: the field %s against the data of %s' % (what, hdr, hdr2), res, {f: dh2[f] for f in SERVER_FIELDS if dh2.get(f) is not None}, rp)
+			if fail:
+				return fail
+	return None
+
+
+W5_OBSERVE = {'lite': _observe_lite, 'tv': _observe_tv, 'ref': _observe_ref, 'cfg': _observe_cfg, 'multi': _observe_multi}
+W5_ORACLE = {'lite': _oracle_lite, 'tv': _oracle_tv, 'ref': _oracle_ref, 'cfg': _oracle_cfg, 'multi': _oracle_multi}
+
+
 def _vals(c):
 	return [_h(v) for v in c['d'].values() if v is not None]
 
@@ -1618,6 +2811,9 @@ def nontrivial(c, o):
 	if c['k'] in ('seq', 'reenc', 'vfy', 'obs'):
 		import json
 		return (c['k'], json.dumps(c, sort_keys=True))
+	if c['k'] in W5_ORACLE:
+		import json
+		return (c['k'], hashlib.sha1(json.dumps(c, sort_keys=True).encode('ascii')).hexdigest())
 	return (c['k'], repr(sorted(c.get('d', {}).items())), repr(c.get('text')), c.get('info'), c.get('v'), repr(c.get('rp')), c.get('key'), c.get('scheme'), repr(c.get('ap')))
 
 
